@@ -1,0 +1,20 @@
+//go:build verif
+
+package nathole
+
+import "sort"
+
+// VerifSnapshot returns the registered xtcp proxy names and the live session ids.
+func (c *Controller) VerifSnapshot() (clients []string, sessions []string) {
+	c.mu.RLock()
+	defer c.mu.RUnlock()
+	for n := range c.clientCfgs {
+		clients = append(clients, n)
+	}
+	for s := range c.sessions {
+		sessions = append(sessions, s)
+	}
+	sort.Strings(clients)
+	sort.Strings(sessions)
+	return
+}
